@@ -85,6 +85,14 @@ impl RMesh {
         RMesh { verts, tris, box_half: None, box_centre: [0.0; 3], min_leg }
     }
 
+    /// The same triangles with every vertex moved by the rigid transform `f` (and rounded to f32 again):
+    /// a box that is not aligned with its own local axes. No box information.
+    pub fn transformed(&self, f: &Fr) -> RMesh {
+        let verts: Vec<V3> = self.verts.iter().map(|v| { let w = f.apply(*v); [f32r(w[0]), f32r(w[1]), f32r(w[2])] }).collect();
+        let min_leg = min_leg_of(&verts, &self.tris);
+        RMesh { verts, tris: self.tris.clone(), box_half: None, box_centre: [0.0; 3], min_leg }
+    }
+
     pub fn from_trimesh(m: &TriMesh) -> RMesh {
         let verts: Vec<V3> = m.vertices().iter().map(|p| [p.x as f64, p.y as f64, p.z as f64]).collect();
         let tris: Vec<[u32; 3]> = m.indices().iter().map(|t| [t[0], t[1], t[2]]).collect();
